@@ -323,6 +323,29 @@ func checkChol(c cholCase) *vk.Failure {
 		if f := finish(x, err, label, f, S, 2*float64(3*n+6)*eps, ch.Cond()); f != nil {
 			return f
 		}
+		// SolveCholTo: X = A^-1 B with B given by its own Cholesky factorization
+		// (two triangular solves with U_a and a product with U_b: each step is
+		// backward stable, the composition carries a factor kappa_2(A)).
+		if g.pd && c.Class == "spd" && sm.Intn(3) == 0 {
+			Bm := genSym(n, logSpaced(n, 1, 10, sm), sm)
+			var chB mat.Cholesky
+			if chB.Factorize(mkSym(sSym, Bm, struc{sym: true, band: -1}, sm)) {
+				dstC, stC := mkDst(c.Dst, n, n, nil, sm)
+				if err := ch.SolveCholTo(dstC.d, &chB); err != nil {
+					return failf("solvechol-spurious-error", "SolveCholTo returned %v for logk=%d", err, c.LogK)
+				}
+				X, f := dstC.result("solvechol")
+				if f != nil {
+					return f
+				}
+				r, _ := residDD(A, X, Bm)
+				tol := cOrth * float64(n) * eps * math.Pow(10, float64(c.LogK)) * (frob(A)*frob(X) + frob(Bm))
+				if !leq(frob(r), tol) {
+					return failf("solvechol", "n=%d logk=%d: ||A*X-B||_F=%g exceeds %g (dst=%s)", n, c.LogK, frob(r), tol, dstNames[stC])
+				}
+				vk.Class("chol/solvechol")
+			}
+		}
 		// InverseTo: (A + dA) X = I columnwise is not what Potri does; use the
 		// normwise residual ||A X - I||_F <= C n eps kappa_F.
 		if g.pd && sm.Intn(3) == 0 {
@@ -494,7 +517,7 @@ func ipos(p []int, i int) int {
 }
 
 func TestCholesky(t *testing.T) {
-	vk.Run(t, "chol", vk.Opts{Quick: 1400, Thorough: 40000}, drawChol, checkChol)
+	vk.Run(t, "chol", vk.Opts{Quick: 4000, Thorough: 120000}, drawChol, checkChol)
 }
 
 var _ = fmt.Sprint
